@@ -183,10 +183,36 @@ def make_xward_results():
     return fn
 
 
+def make_no_bypass():
+    """a network whose buses are all reference buses: without distributed slack the iteration is bypassed (every voltage is a set point), with
+    distributed slack it must not be - the slack power has to be shared by the weights, which only the solver's extra equation does"""
+    def fn(ctx):
+        pf = ctx.load("pandapower.powerflow")
+        from pandapower.pypower.idx_bus import BUS_I, BUS_TYPE, VM, bus_cols
+        from pandapower.pypower.idx_gen import GEN_BUS, GEN_STATUS, SL_FAC, gen_cols
+        from pandapower.pypower.idx_brch import branch_cols
+        nb = 2
+        bus = ctx.obj(np.zeros((nb, bus_cols)))
+        gen = ctx.obj(np.zeros((nb, gen_cols)))
+        for b in range(nb):
+            bus[b, BUS_I], bus[b, BUS_TYPE], bus[b, VM] = b, 3, 1.0
+            gen[b, GEN_BUS], gen[b, GEN_STATUS], gen[b, SL_FAC] = b, 1, ctx.var(f"weight{b}", 0.1, 2.)
+        ppci = {"bus": bus, "gen": gen, "branch": np.zeros((1, branch_cols)), "baseMVA": 10., "svc": np.zeros((0, 20)), "tcsc": np.zeros((0, 30)),
+                "ssc": np.zeros((0, 20)), "vsc": np.zeros((0, 30))}
+        for dist in (True, False):
+            called = []
+            with patched(pf, _bypass_pf_and_set_results=lambda ppci_, options: called.append("bypass") or ppci_,
+                         _run_newton_raphson_pf=lambda ppci_, options: called.append("newton") or ppci_):
+                pf._run_pf_algorithm(ppci, {"algorithm": "nr", "ac": True, "distributed_slack": dist})
+            ctx.true(f"distributed_slack_{dist}/solver_path", called == (["newton"] if dist else ["bypass"]))
+    return fn
+
+
 def instances(tier):
     out = [Inst("shared_bus", make_fn("general"), nvars=40, samples=3, timeout_ms=60000, raises=(ValueError, NotImplementedError), meta=dict(variant="general")),
            Inst("ext_grid_weight_zero_shares_bus_with_participant", make_fn("ref_weight_zero"), nvars=40, samples=3, timeout_ms=60000,
                 raises=(ValueError, NotImplementedError), meta=dict(variant="ref_weight_zero"))]
+    out.append(Inst("all_buses_are_reference_buses", make_no_bypass(), nvars=8, samples=2, raises=(ValueError, NotImplementedError), meta=dict(variant="bypass of the iteration")))
     out.append(Inst("xward_result_extraction", make_xward_results(), nvars=40, samples=3, timeout_ms=60000, raises=(ValueError, NotImplementedError),
                     meta=dict(variant="participating xwards at two buses, out-of-service xward, scaled load, sgen, storage, ward, out-of-service load")))
     if tier == "thorough":
